@@ -157,7 +157,7 @@ namespace {
       const int n = int(rng.range(1, max_n));
       for (int i = 0; i < n && n_stmts < 25; ++i) {
         ++n_stmts;
-        const int k = int(rng.below(d <= 0 ? 12 : 22));
+        const int k = int(rng.below(d <= 0 ? 12 : 24));
         switch (k) {
         case 0:
         case 1:
@@ -257,9 +257,27 @@ namespace {
             out += "if (flag()) { throw(" + rng.pick(objs) + ") }; ";
           }
           break;
-        default: {
+        case 21: {
           const std::string x = nm("r");
           out += "var &" + x + " = held_ref(); by_ref(" + x + "); ";
+          break;
+        }
+        default: {
+          // a C++ function that calls back into script while it holds a reference to its argument
+          // (a converted temporary, a plain temporary or a variable), and uses the argument afterwards
+          static const char *cbs[] = {"fun() { var z = 1; to_string(z) }", "fun() { to_string(2) }", "fun() { by_cref(Tracked(3)) }", "fun() { var w = [Tracked(4)]; w.size() }"};
+          std::string arg;
+          switch (rng.below(objs.empty() ? 3 : 4)) {
+          case 0: arg = "TSource(" + num() + ")"; break;
+          case 1: arg = "Tracked(" + num() + ")"; break;
+          case 2: arg = "TrackedDerived(" + num() + ")"; break;
+          default: arg = rng.pick(objs); break;
+          }
+          // known finding C11-K1: a temporary made by a user conversion dies inside the call when the
+          // callback evaluates a block that has a scope of its own (cbs[0], cbs[3]); that pairing is
+          // listed in known_findings.json and not generated
+          const bool converted = arg.rfind("TSource", 0) == 0;
+          out += "with_cb(" + arg + ", " + (converted ? cbs[1 + rng.below(2)] : cbs[rng.below(4)]) + "); ";
           break;
         }
         }
@@ -359,6 +377,12 @@ namespace {
         e.add(fun([&holder_objs](const Holder &h) { holder_objs.push_back(h); }), "keep_holder");
         e.add(fun([&cpp_owned]() -> Tracked & { return cpp_owned; }), "held_ref");
         e.add(fun([&trace](int v) { trace.push_back(v); }), "t");
+        e.add(fun([](const Tracked &t, const std::function<void()> &cb) {
+                const int before = t.value();
+                cb();
+                return before + t.value(); // the argument must still be alive after the callback returned
+              }),
+              "with_cb");
         e.add(fun([script_throw]() { return script_throw; }), "flag");
         e.eval("def mk(n) { var tmp = Tracked(n); tmp.set_value(n + 1); return tmp }");
 
